@@ -107,6 +107,8 @@ def analyse(rep: Report) -> None:
     cls = need(find_class(tree, 'DashTiming'), f'{TM}::DashTiming')
     init = need(find_func(cls, '__init__'), 'DashTiming.__init__')
     live = need(find_func(cls, 'calculate_live_params'), 'DashTiming.calculate_live_params')
+    from ..normalise import propagate_attr_aliases
+    init, live = propagate_attr_aliases(init), propagate_attr_aliases(live)
     construct = f'{TM}::DashTiming.calculate_live_params'
     consts = _class_consts(cls)
 
